@@ -21,6 +21,10 @@ CLAIMED = {
   "Bounded symbolic model checking of the real FileSystemDirectory.Persist/fileName against a POSIX file model written in the harness: every prior file state (absent/shorter/equal/longer, symbolic content), every item up to the stated size in up to two writes, writer failure at every chunk boundary, cancellation, and (second harness) every placement of environment faults on open/write(short)/truncate/sync/close/remove. Success implies exact bytes and a flush after the last write; failure implies no file left.",
   "The fsync and fault clauses are claims about the POSIX model (nothing in user space observes a missing flush; a failing fsync cannot be provoked natively), so PersistFaults counterexamples are reported without native confirmation; PersistExact counterexamples are replayed against a real temporary directory. Outside: kernel behaviour, flock, directory-entry durability (Persist does not sync the directory), Windows path.",
   "DESIGN.md section 5 C13, appendix C.7"),
+ "C12": (
+  "Bounded symbolic model checking of the real snapshot codec and loader (Snapshot.WriteTo/ReadFrom/readFromVersion1/readSegmentSnapshot/readVarLenString/readBytes, recordSegment, countHashWriter/Reader, Writer.loadSnapshot/loadSegment, loadSegmentPlugin; bufio, io.LimitReader, binary.Uvarint, segment.Data from source): every byte string up to the stated length is decoded or rejected without panic, without an allocation a length field can push past the limit, and without touching the item's bytes after its closer ran; acceptance implies trailer == checksum of the preceding bytes, closer called once, all segments loaded; every snapshot of up to 2 (3) segments with arbitrary 64-bit ids/32-bit versions/type strings round-trips across buffer-fill boundaries.",
+  "Bounds: files <= 13 bytes quick (16 thorough) for the decoder, <= 9 (13) through loadSnapshot; <= 2 (3) segments for the round trip. Stubs: roaring's serialisation (unsafe) replaced by a model codec; hash/crc32.Update replaced by a rolling checksum (the gate's compare logic is checked, CRC-32's detection strength — 'a damaged file's CRC differs' — is outside); io.CopyN by its documented contract; chunked source reader / 16-byte bufio buffer to reach buffer boundaries with short inputs; model directory (Load = private copy freed by its closer, modelling munmap) and model plugin. Native replay uses the real FileSystemDirectory with the mmap loader. Fall-back to an older snapshot is C03.",
+  "DESIGN.md section 5 C12"),
 }
 
 NA = {
